@@ -93,8 +93,16 @@ const BandC = 200.0
 // output), class the path class used in the signature, clause the failing
 // clause.  It returns true when the value is accepted.
 func (m *mon) band(name, class, clause string, got float64, ref bf, unit float64, replay func() any) bool {
+	return m.bandLim(1e290, name, class, clause, got, ref, unit, replay)
+}
+
+// bandLim is band with an explicit representability limit: references outside
+// [1/lim, lim] get no verdict.  Routines evaluated in log space (geometric and
+// harmonic mean) are judged up to 1e305; plain sums only up to 1e290, leaving
+// room for the n-fold accumulation.
+func (m *mon) bandLim(lim float64, name, class, clause string, got float64, ref bf, unit float64, replay func() any) bool {
 	reff := bTo(ref)
-	if !isFinite(reff) || (reff != 0 && math.Abs(reff) < 1e-290) || math.Abs(reff) > 1e290 {
+	if !isFinite(reff) || (reff != 0 && math.Abs(reff) < 1/lim) || math.Abs(reff) > lim {
 		// reference not representable with full precision: no verdict
 		m.c.Count("noverdict.unrepresentable-reference", 1)
 		return true
